@@ -133,7 +133,8 @@ def run_C01(res):
         if inV != "1" or inE != "1":
             res.count("outside_V_and_E_skipped")
             continue
-        res.case(p, nontrivial_feat(ft), {"position": p, "moves": gi[:200]})
+        nt = nontrivial_feat(ft)
+        res.case(p, nt, {"position": p, "features": ft, "moves": gi[:200]} if nt and ("epm=1" in ft or "castle=1" in ft or "chk=2" in ft or "promo=4" in ft) else None)
         if sorted(gi.split()) != sorted(gm.split()):
             res.disagree("move_generator (as a set, with piece tags)", "gen " + p, gi, gm)
         impl_moves = parse_moves(gi) if gi not in ("PANIC", "DIED") else None
